@@ -11,6 +11,6 @@ HARNESSES = [
 import importlib.util as _ilu
 _rp = _ilu.spec_from_file_location('realspec', os.path.join(os.path.dirname(os.path.abspath(__file__)), '..', 'real', 'spec.py'))
 _real = _ilu.module_from_spec(_rp); _rp.loader.exec_module(_real)
-HARNESSES += [x for x in _real.MEMPOOL_HARNESSES if x['name'] in ('h_mempool_vbk', 'h_mempool_reject', 'h_mempool_submit', 'h_mempool_limits', 'h_mempool_vbktie', 'h_mempool_timely')]
+HARNESSES += [x for x in _real.MEMPOOL_HARNESSES if x['name'] in ('h_mempool_vbk', 'h_mempool_reject', 'h_mempool_submit', 'h_mempool_limits', 'h_mempool_vbktie', 'h_mempool_timely', 'h_mempool_vtbfork')]
 EXPLANATION = 'The real CountingContext header runs symbolically from an arbitrary invariant-satisfying state (inductive step), so block limits are decided for PopData of any length.'
 ASSUMPTIONS = ['toy payload types with symbolic estimateSize(); stateful validity of generatePopData() on the real tip and side-effect freedom of the temporary block are outside (generic rollback mechanisms are decided in C01/C02/C07)']
